@@ -64,3 +64,13 @@ Example C01_nonvacuous :
   patch _ H deq true true basis (compute_delta _ H deq 2 (gen_signature _ H 2 basis) src) = POk src.
 Proof. split; [|split; vm_compute; reflexivity].
   intros c win _ _ _ E. exact E. Qed.
+
+(** [Delta.patch] - the patch function of the theorems above - is the translation of src/sync.rs `CopiaSync::patch` (both
+    profiles; premise: the delta's source size is a u64) and of src/async_sync.rs `AsyncCopiaSync::patch` (the engine of
+    `copia patch`: the unchecked model in every profile) as the source has them now: validate first, serve every Copy by
+    seek + read_exact on the basis and every Literal from its payload, hash exactly the bytes written, compare with the
+    delta's checksum when verification is on (Gen/PatchGen.v, Proofs/TiePatch.v). *)
+Require Copia.Proofs.TiePatch.
+Theorem C01_patch_is_translation_of_source : TiePatch.patch_model_is_translation.
+Proof. exact TiePatch.patch_model_is_translation_holds. Qed.
+Print Assumptions C01_patch_is_translation_of_source.
